@@ -410,13 +410,14 @@ func c04r1(p *Prog, r *Reporter) {
 		return
 	}
 	for _, n := range maskMethodNames() {
-		fd := p.FuncDecl("ecs", "Mask", n)
+		fn := p.maskMethodSSA(n)
 		name := "ecs.(*Mask)." + n
-		if fd == nil {
+		if fn == nil {
 			r.Anchor(name)
 			continue
 		}
-		mm, err := c.analyse(fd)
+		fd := fn // position source
+		mm, err := c.analyseSSA(fn)
 		if err != nil {
 			r.Und(name, "word uniformity", p.Pos(fd.Pos()), "the method is not in a recognised word-parallel form: "+err.Error())
 			continue
@@ -485,14 +486,15 @@ func c04r2(p *Prog, r *Reporter) {
 		return
 	}
 	for _, n := range maskMethodNames() {
-		fd := p.FuncDecl("ecs", "Mask", n)
+		fn := p.maskMethodSSA(n)
 		name := "ecs.(*Mask)." + n
-		if fd == nil {
+		if fn == nil {
 			r.Anchor(name)
 			continue
 		}
+		fd := fn // position source
 		spec := maskSpecs[n]
-		mm, err := c.analyse(fd)
+		mm, err := c.analyseSSA(fn)
 		if err != nil {
 			r.Und(name, "set semantics", p.Pos(fd.Pos()), "the method is not in a recognised word-parallel form: "+err.Error())
 			continue
@@ -703,6 +705,12 @@ func (p *Prog) callAtom(e ast.Expr, defs map[string]ast.Expr) (string, bool) {
 		args = append(args, s)
 	}
 	recv := strings.ReplaceAll(p.subst(sel.X, defs, 0), " ", "")
+	// x.M() and (&x).M() are the same call (automatic address-taking / dereference)
+	for strings.HasPrefix(recv, "(") && strings.HasSuffix(recv, ")") {
+		recv = recv[1 : len(recv)-1]
+	}
+	recv = strings.TrimPrefix(recv, "&")
+	recv = strings.TrimPrefix(recv, "*")
 	return sel.Sel.Name + "(" + recv + ";" + strings.Join(args, ",") + ")", true
 }
 
